@@ -191,6 +191,7 @@ def run(ctx):
                 if nrows == 0:
                     continue
                 i = r.randint(-nrows, nrows - 1)
+                i = r.choice([i, i, np.int64(i), np.int32(i), np.intp(i)])       # the row number as a Python int or as a NumPy integer (what argmax, a loop over arange give)
                 def ent(t):
                     e = t[i]
                     return tuple(tables._hashable(tables.norm_entry_value(getattr(e, f))) for f in fields_of(fmt))
